@@ -6,6 +6,8 @@ import (
 	"os"
 	"regexp"
 	"strings"
+
+	"golang.org/x/tools/go/ssa"
 )
 
 // Clause is one requires/ensures/invariant/axiom/lemma expression.
@@ -52,6 +54,7 @@ type Contract struct {
 	Counts     [][2]string // ghost call counters: (name, callee pattern)
 	Shared     []string    // locations other goroutines may write: havoced at blocking operations
 	HavocPreserves []string // struct types (pkg.Type) assumed not to be written by uncontracted callees
+	SweepFn        *ssa.Function // synthetic contract of `gowp sweep`: the function itself
 	NonNil         []string // callees whose first result is assumed non-nil
 	PropOnly       map[string]string // clause label / "count[name]" -> the only property it is generated for
 	// contracts on function literals ("Parent$N")
